@@ -7,42 +7,210 @@ use crate::env::misc::is_native;
 use chrono::{DateTime, TimeDelta, Utc};
 use rust_decimal::Decimal;
 
+// ---- nondeterministic inputs --------------------------------------------------------------------------------
+// Every symbolic input of every harness comes from one of the `any_*` functions below. Under Kani they are
+// `kani::any()` + `kani::assume(range)` (quantified by the solver). Natively (when a solver-found violation is
+// REPLAYED against the real code, stubs off) they read the next digit of an enumeration script, so that
+// `native_search` can walk the same bounded input space concretely and exhibit a failing input in seconds;
+// the solver stays the deciding step, the native search only confirms its verdict on the real build.
+
+// The two implementations are selected at compile time: `--cfg verif_native` is set by /verif/check for the native
+// replay build only (thread-locals and catch_unwind must not even be reachable for kani-compiler).
+#[cfg(not(verif_native))]
+mod source {
+    pub fn assume(cond: bool) {
+        kani::assume(cond);
+    }
+    pub fn any_bool() -> bool {
+        kani::any()
+    }
+    /// `lo..=hi`
+    pub fn any_int_in(lo: i64, hi: i64) -> i64 {
+        let v: i64 = kani::any();
+        kani::assume(v >= lo && v <= hi);
+        v
+    }
+    pub fn any_u8_lt(n: u8) -> u8 {
+        let v: u8 = kani::any();
+        kani::assume(v < n);
+        v
+    }
+    pub fn any_u8_in(lo: u8, hi: u8) -> u8 {
+        let v: u8 = kani::any();
+        kani::assume(v >= lo && v <= hi);
+        v
+    }
+    pub fn any_i8_in(lo: i8, hi: i8) -> i8 {
+        let v: i8 = kani::any();
+        kani::assume(v >= lo && v <= hi);
+        v
+    }
+    pub fn any_usize_lt(n: usize) -> usize {
+        let v: usize = kani::any();
+        kani::assume(v < n);
+        v
+    }
+    pub fn any_u64() -> u64 {
+        kani::any()
+    }
+}
+
+#[cfg(verif_native)]
+mod source {
+    use std::cell::RefCell;
+
+    thread_local! {
+        static SCRIPT: RefCell<Script> = RefCell::new(Script::default());
+    }
+    #[derive(Default)]
+    struct Script {
+        digits: Vec<(u64, u64)>, // (value, radix)
+        pos: usize,
+    }
+    struct AssumeFailed;
+
+    fn digit(radix: u64) -> u64 {
+        SCRIPT.with(|s| {
+            let mut s = s.borrow_mut();
+            if s.pos == s.digits.len() {
+                s.digits.push((0, radix));
+            }
+            let (v, _) = s.digits[s.pos];
+            s.pos += 1;
+            v
+        })
+    }
+
+    /// Full-range 64-bit values are enumerated natively from a small candidate set (boundary values); a violation
+    /// whose witnesses all lie outside it is left to Kani's own concrete playback.
+    const U64_CANDIDATES: [u64; 10] = [0, 1, 2, 3, 4, 5, 6, u64::MAX - 2, u64::MAX - 1, u64::MAX];
+
+    pub fn assume(cond: bool) {
+        if !cond {
+            std::panic::panic_any(AssumeFailed);
+        }
+    }
+    pub fn any_bool() -> bool {
+        digit(2) == 1
+    }
+    pub fn any_int_in(lo: i64, hi: i64) -> i64 {
+        lo + digit((hi - lo + 1) as u64) as i64
+    }
+    pub fn any_u8_lt(n: u8) -> u8 {
+        digit(n as u64) as u8
+    }
+    pub fn any_u8_in(lo: u8, hi: u8) -> u8 {
+        lo + digit((hi - lo + 1) as u64) as u8
+    }
+    pub fn any_i8_in(lo: i8, hi: i8) -> i8 {
+        (lo as i64 + digit((hi as i64 - lo as i64 + 1) as u64) as i64) as i8
+    }
+    pub fn any_usize_lt(n: usize) -> usize {
+        digit(n as u64) as usize
+    }
+    pub fn any_u64() -> u64 {
+        U64_CANDIDATES[digit(U64_CANDIDATES.len() as u64) as usize]
+    }
+
+    /// Runs `harness` once natively on a recorded script; returns the panic message if it fails.
+    pub fn native_replay(harness: fn(), script: &[u64]) -> Option<String> {
+        let prev = std::panic::take_hook();
+        std::panic::set_hook(Box::new(|_| {}));
+        SCRIPT.with(|s| *s.borrow_mut() = Script { digits: script.iter().map(|v| (*v, u64::MAX)).collect(), pos: 0 });
+        let result = std::panic::catch_unwind(harness);
+        std::panic::set_hook(prev);
+        match result {
+            Ok(()) => None,
+            Err(payload) if payload.is::<AssumeFailed>() => None,
+            Err(payload) => Some(if let Some(m) = payload.downcast_ref::<String>() {
+                m.clone()
+            } else if let Some(m) = payload.downcast_ref::<&str>() {
+                m.to_string()
+            } else {
+                String::from("<non-string panic>")
+            }),
+        }
+    }
+
+    /// Walks the bounded input space of `harness` natively (depth-first over the `any_*` digits, pruning at failed
+    /// assumptions) until a run panics with anything other than a failed assumption. Returns the failing script and
+    /// the panic message, or None if `max_runs` runs (or the whole space) passed.
+    pub fn native_search(harness: fn(), max_runs: u64) -> Option<(Vec<u64>, String)> {
+        let prev = std::panic::take_hook();
+        std::panic::set_hook(Box::new(|_| {}));
+        SCRIPT.with(|s| *s.borrow_mut() = Script::default());
+        let mut runs = 0u64;
+        let mut found = None;
+        loop {
+            SCRIPT.with(|s| s.borrow_mut().pos = 0);
+            let result = std::panic::catch_unwind(harness);
+            runs += 1;
+            let consumed = SCRIPT.with(|s| s.borrow().pos);
+            if let Err(payload) = result {
+                if !payload.is::<AssumeFailed>() {
+                    let message = if let Some(m) = payload.downcast_ref::<String>() {
+                        m.clone()
+                    } else if let Some(m) = payload.downcast_ref::<&str>() {
+                        m.to_string()
+                    } else {
+                        String::from("<non-string panic>")
+                    };
+                    let script = SCRIPT.with(|s| s.borrow().digits[..consumed].iter().map(|d| d.0).collect());
+                    found = Some((script, message));
+                    break;
+                }
+            }
+            // advance the odometer: drop digits that were not consumed, then increment the last one that can be
+            let exhausted = SCRIPT.with(|s| {
+                let mut s = s.borrow_mut();
+                s.digits.truncate(consumed);
+                while let Some((v, r)) = s.digits.pop() {
+                    if v + 1 < r {
+                        s.digits.push((v + 1, r));
+                        return false;
+                    }
+                }
+                true
+            });
+            if exhausted || runs >= max_runs {
+                break;
+            }
+        }
+        std::panic::set_hook(prev);
+        eprintln!("native_search: {runs} runs, found = {}", found.is_some());
+        found
+    }
+}
+pub use source::*;
+
 /// Unsigned integer Decimal in `[0, 2^bits)`.
 pub fn dec_u(bits: u32) -> Decimal {
-    let v: u8 = kani::any();
-    kani::assume((v as u32) < (1u32 << bits));
-    Decimal::from(v)
+    Decimal::from(any_u8_lt(1u8 << bits))
 }
 
 /// Unsigned integer Decimal in `[1, 2^bits)`.
 pub fn dec_pos(bits: u32) -> Decimal {
-    let v: u8 = kani::any();
-    kani::assume(v >= 1 && (v as u32) < (1u32 << bits));
-    Decimal::from(v)
+    Decimal::from(any_u8_in(1, (1u8 << bits) - 1))
 }
 
 /// Signed integer Decimal in `(-2^bits, 2^bits)`.
 pub fn dec_i(bits: u32) -> Decimal {
-    let v: i8 = kani::any();
-    kani::assume((v as i32) > -(1i32 << bits) && (v as i32) < (1i32 << bits));
-    Decimal::from(v)
+    let m = (1i8 << bits) - 1;
+    Decimal::from(any_i8_in(-m, m))
 }
 
 /// Non-negative rational `n/d`, `n < 2^bits`, `1 <= d <= dmax`.
 pub fn dec_q(bits: u32, dmax: u8) -> Decimal {
-    let n: u8 = kani::any();
-    let d: u8 = kani::any();
-    kani::assume((n as u32) < (1u32 << bits));
-    kani::assume(d >= 1 && d <= dmax);
+    let n = any_u8_lt(1u8 << bits);
+    let d = any_u8_in(1, dmax);
     if d == 1 { Decimal::from(n) } else { Decimal::from(n) / Decimal::from(d) }
 }
 
 /// Signed rational `n/d`, `|n| < 2^bits`, `1 <= d <= dmax`.
 pub fn dec_qi(bits: u32, dmax: u8) -> Decimal {
-    let n: i8 = kani::any();
-    let d: u8 = kani::any();
-    kani::assume((n as i32) > -(1i32 << bits) && (n as i32) < (1i32 << bits));
-    kani::assume(d >= 1 && d <= dmax);
+    let m = (1i8 << bits) - 1;
+    let n = any_i8_in(-m, m);
+    let d = any_u8_in(1, dmax);
     if d == 1 { Decimal::from(n) } else { Decimal::from(n) / Decimal::from(d) }
 }
 
@@ -62,9 +230,7 @@ pub fn deq_opt(a: Option<Decimal>, b: Option<Decimal>) -> bool {
 
 /// Timestamp `MIN_UTC + s` seconds, `s < bound` symbolic.
 pub fn time(bound: u8) -> DateTime<Utc> {
-    let s: u8 = kani::any();
-    kani::assume(s < bound);
-    time_at(s)
+    time_at(any_u8_lt(bound))
 }
 
 pub fn time_at(s: u8) -> DateTime<Utc> {
